@@ -27,6 +27,12 @@ class Deadlock(Exception):
 
 
 RUNNABLE, SLEEPING, JOINING, WAITING, LOCKING, DONE, NEW = "runnable", "sleeping", "joining", "waiting", "locking", "done", "new"
+COND = "cond"  # blocked until a predicate holds (semaphore value, condition notification) or a timeout passes
+
+
+class NotSimulated(BaseException):
+    """The code under test uses a part of ``threading`` the scheduler does not model: a harness
+    limit (exit 2), never a verdict about the code."""
 
 
 class SimThreadState(object):
@@ -96,11 +102,13 @@ class Scheduler(object):
                 out.append(t)
             elif t.state == LOCKING and t.wait_obj.owner is None:
                 out.append(t)
+            elif t.state == COND and (t.wait_obj() or (t.wake_us is not None and t.wake_us <= now)):
+                out.append(t)
         return out
 
     def _earliest_wake(self):
         w = [t.wake_us for t in self.threads.values()
-             if t.state in (SLEEPING, WAITING) and t.wake_us is not None]
+             if t.state in (SLEEPING, WAITING, COND) and t.wake_us is not None]
         return min(w) if w else None
 
     def _pick(self, runnable, me):
@@ -201,6 +209,8 @@ class Scheduler(object):
             t.wait_obj.owner = t
             t.wait_obj.count = 1
             t.state, t.wait_obj = RUNNABLE, None
+        elif t.state == COND:
+            t.state, t.wake_us, t.wait_obj = RUNNABLE, None, None
 
     # ---- blocking primitives -------------------------------------------------------------
     def sleep(self, seconds):
@@ -409,11 +419,114 @@ class ShimThreading(object):
 
             isAlive = is_alive
 
+        def block_until(pred, timeout, what):
+            """Parks the calling thread until pred() holds or the (virtual) timeout passes."""
+            me = s.me()
+            if not pred():
+                me.state = COND
+                me.wait_obj = pred
+                me.wake_us = None if timeout is None or timeout < 0 else s.clock.us + int(round(timeout * 1e6))
+            s.yield_point(what)
+            return pred()
+
+        class Semaphore(object):
+            def __init__(self, value=1):
+                if value < 0:
+                    raise ValueError("semaphore initial value must be >= 0")
+                self.value = value
+
+            def acquire(self, blocking=True, timeout=None):
+                s.yield_point("semaphore.acquire")
+                if self.value <= 0:
+                    if not blocking:
+                        return False
+                    if not block_until(lambda: self.value > 0, timeout, "semaphore.block"):
+                        return False
+                self.value -= 1
+                return True
+
+            def release(self, n=1):
+                self.value += n
+                s.yield_point("semaphore.release")
+
+            __enter__ = acquire
+
+            def __exit__(self, *a):
+                self.release()
+
+        class BoundedSemaphore(Semaphore):
+            def __init__(self, value=1):
+                Semaphore.__init__(self, value)
+                self.bound = value
+
+            def release(self, n=1):
+                if self.value + n > self.bound:
+                    raise ValueError("Semaphore released too many times")
+                Semaphore.release(self, n)
+
+        class Condition(object):
+            def __init__(self, lock=None):
+                self.lock = lock if lock is not None else RLock()
+                self.tickets = []   # one cell per waiter; notify() sets cells
+                self.acquire, self.release = self.lock.acquire, self.lock.release
+
+            def __enter__(self):
+                return self.lock.__enter__()
+
+            def __exit__(self, *a):
+                return self.lock.__exit__(*a)
+
+            def wait(self, timeout=None):
+                me = s.me()
+                if self.lock.owner is not me:
+                    raise RuntimeError("cannot wait on un-acquired lock")
+                cell = [False]
+                self.tickets.append(cell)
+                count = self.lock.count
+                self.lock.owner, self.lock.count = None, 0
+                got = block_until(lambda: cell[0], timeout, "condition.wait")
+                if cell in self.tickets:
+                    self.tickets.remove(cell)
+                self.lock.acquire()
+                self.lock.count = count
+                return got
+
+            def wait_for(self, predicate, timeout=None):
+                end = None if timeout is None else s.clock.us + int(round(timeout * 1e6))
+                result = predicate()
+                while not result:
+                    left = None if end is None else (end - s.clock.us) / 1e6
+                    if left is not None and left <= 0:
+                        break
+                    self.wait(left)
+                    result = predicate()
+                return result
+
+            def notify(self, n=1):
+                for cell in self.tickets[:n]:
+                    cell[0] = True
+                del self.tickets[:n]
+                s.yield_point("condition.notify")
+
+            def notify_all(self):
+                self.notify(len(self.tickets))
+
+            notifyAll = notify_all
+
         Thread._n = [0]
         self.Event, self.Lock, self.RLock, self.Thread = Event, Lock, RLock, Thread
+        self.Semaphore, self.BoundedSemaphore, self.Condition = Semaphore, BoundedSemaphore, Condition
 
     def current_thread(self):
         return self._sched.me()
 
+    def main_thread(self):
+        return self._sched.threads.get("main")
+
+    def get_ident(self):
+        return id(self._sched.me())
+
     def __getattr__(self, name):
-        raise AttributeError("ShimThreading: threading.%s is not simulated" % name)
+        if name.startswith("__"):
+            raise AttributeError(name)
+        raise NotSimulated("threading.%s is not simulated by the scheduler" % name)
